@@ -1,5 +1,6 @@
 import CasbinModel.Lemmas.Csv
 import CasbinModel.Lemmas.Mirror
+import CasbinModel.Lemmas.MirrorBatch
 /-!
 # C09 — Stored policy and in-memory policy stay identical
 
@@ -295,7 +296,7 @@ theorem mirror_remove (e : Enforcer) (hk : e.adapter.kind = .memory) (hp : e.ada
     simp only [Option.some.injEq, Bool.false_eq_true, if_false] at hex ⊢
     exact hm sec' pt' hex
 
-/-! ### Every history of single additions and removals -/
+/-! ### Every history of management operations -/
 
 theorem linkUpdate_autoSave (x : Enforcer) (changed : Bool) (sec pt : String) (ins : Bool) (rules : List Rule) (ret : Res) :
     (x.linkUpdate changed sec pt ins rules ret).1.autoSave = x.autoSave := by
@@ -360,16 +361,351 @@ theorem memOk_remove (e : Enforcer) (h : MemOk e) (sec pt : String) (rule : Rule
     simp only [AdapterSt.removePolicy, AdapterSt.nextFault, hp, hk]
   · rw [removePolicy_autoSave]; exact has
 
+/-! ### The batch and filtered operations -/
+
+theorem adapter_plan_nil (a : AdapterSt) (hp : a.plan = []) : ({ a with plan := [] } : AdapterSt) = a := by
+  cases a; simp_all
+
+theorem adapter_addPolicies_mem (a : AdapterSt) (hk : a.kind = .memory) (hp : a.plan = []) (sec pt : String) (rules : List Rule) :
+    a.addPolicies sec pt rules =
+      (if (rules.map (tag sec pt)).any (fun l => decide (l ∈ a.lines)) then (a, some false)
+       else ({ a with lines := OrdSet.addAll a.lines (rules.map (tag sec pt)) }, some true)) := by
+  simp only [AdapterSt.addPolicies, AdapterSt.nextFault, hp, hk, adapter_plan_nil a hp]
+
+theorem adapter_removePolicies_mem (a : AdapterSt) (hk : a.kind = .memory) (hp : a.plan = []) (sec pt : String) (rules : List Rule) :
+    a.removePolicies sec pt rules =
+      (if (rules.map (tag sec pt)).any (fun l => decide (l ∉ a.lines)) then (a, some false)
+       else ({ a with lines := OrdSet.removeAll a.lines (rules.map (tag sec pt)) }, some true)) := by
+  simp only [AdapterSt.removePolicies, AdapterSt.nextFault, hp, hk, adapter_plan_nil a hp]
+
+theorem adapter_removeFiltered_mem (a : AdapterSt) (hk : a.kind = .memory) (hp : a.plan = []) (sec pt : String)
+    (idx : Nat) (vals : List String) :
+    a.removeFiltered sec pt idx vals =
+      (if vals.isEmpty then (a, some false)
+       else ({ a with lines := a.lines.filter (fun l => !lineHit sec pt idx vals l) },
+             some (a.lines.any (lineHit sec pt idx vals)))) := by
+  simp only [AdapterSt.removeFiltered, AdapterSt.nextFault, hp, hk, adapter_plan_nil a hp]
+  rfl
+
+theorem addPolicies_fields (e : Enforcer) (sec pt : String) (rules : List Rule) (has : e.autoSave = true) :
+    (e.addPolicies sec pt rules).1.adapter = (e.adapter.addPolicies sec pt rules).1 ∧
+    (e.addPolicies sec pt rules).1.store =
+      (if (e.adapter.addPolicies sec pt rules).2 = some true then (e.store.addPolicies sec pt rules).1 else e.store) := by
+  unfold Enforcer.addPolicies
+  simp only [has, if_true]
+  cases hr : e.adapter.addPolicies sec pt rules with
+  | mk a r =>
+    cases r with
+    | none => simp
+    | some b =>
+      cases b with
+      | false => simp
+      | true =>
+        simp only [if_true]
+        rw [(linkUpdate_fields _ _ _ _ _ _ _).1, (linkUpdate_fields _ _ _ _ _ _ _).2]
+        split <;> simp [(emit_fields _ _).1, (emit_fields _ _).2]
+
+theorem removePolicies_fields (e : Enforcer) (sec pt : String) (rules : List Rule) (has : e.autoSave = true) :
+    (e.removePolicies sec pt rules).1.adapter = (e.adapter.removePolicies sec pt rules).1 ∧
+    (e.removePolicies sec pt rules).1.store =
+      (if (e.adapter.removePolicies sec pt rules).2 = some true then (e.store.removePolicies sec pt rules).1 else e.store) := by
+  unfold Enforcer.removePolicies
+  simp only [has, if_true]
+  cases hr : e.adapter.removePolicies sec pt rules with
+  | mk a r =>
+    cases r with
+    | none => simp
+    | some b =>
+      cases b with
+      | false => simp
+      | true =>
+        simp only [if_true]
+        rw [(linkUpdate_fields _ _ _ _ _ _ _).1, (linkUpdate_fields _ _ _ _ _ _ _).2]
+        split <;> simp [(emit_fields _ _).1, (emit_fields _ _).2]
+
+theorem removeFiltered_fields (e : Enforcer) (sec pt : String) (idx : Nat) (vals : List String) (has : e.autoSave = true) :
+    (e.removeFiltered sec pt idx vals).1.adapter = (e.adapter.removeFiltered sec pt idx vals).1 ∧
+    (e.removeFiltered sec pt idx vals).1.store =
+      (if (e.adapter.removeFiltered sec pt idx vals).2 = some true then (e.store.removeFiltered sec pt idx vals).1 else e.store) := by
+  unfold Enforcer.removeFiltered
+  simp only [has, if_true]
+  cases hr : e.adapter.removeFiltered sec pt idx vals with
+  | mk a r =>
+    cases r with
+    | none => simp
+    | some b =>
+      cases b with
+      | false => simp
+      | true =>
+        simp only [if_true]
+        rw [(linkUpdate_fields _ _ _ _ _ _ _).1, (linkUpdate_fields _ _ _ _ _ _ _).2]
+        split <;> simp [(emit_fields _ _).1, (emit_fields _ _).2]
+
+theorem Store.addPolicies_find (s : Store) (sec pt : String) (rules : List Rule) (sec' pt' : String) :
+    ((s.addPolicies sec pt rules).1.find sec' pt').isSome = (s.find sec' pt').isSome := by
+  unfold Store.addPolicies
+  cases hf : s.find sec pt with
+  | none => rfl
+  | some d =>
+    simp only
+    split
+    · rfl
+    · exact Store.find_isSome_update s sec pt sec' pt' (fun pol => OrdSet.addAll pol rules)
+
+theorem Store.removePolicies_find (s : Store) (sec pt : String) (rules : List Rule) (sec' pt' : String) :
+    ((s.removePolicies sec pt rules).1.find sec' pt').isSome = (s.find sec' pt').isSome := by
+  unfold Store.removePolicies
+  cases hf : s.find sec pt with
+  | none => rfl
+  | some d =>
+    simp only
+    split
+    · rfl
+    · exact Store.find_isSome_update s sec pt sec' pt' (fun pol => OrdSet.removeAll pol rules)
+
+theorem Store.removeFiltered_find (s : Store) (sec pt : String) (idx : Nat) (vals : List String) (sec' pt' : String) :
+    ((s.removeFiltered sec pt idx vals).1.find sec' pt').isSome = (s.find sec' pt').isSome := by
+  unfold Store.removeFiltered
+  split
+  · rfl
+  · cases hf : s.find sec pt with
+    | none => rfl
+    | some d =>
+      simp only
+      split
+      · rfl
+      · exact Store.find_isSome_update s sec pt sec' pt' (fun pol => pol.filter (fun r => !filterMatch idx vals r))
+
+/-- **`add_policies` with auto-save keeps the mirror**: accepted (every rule new — the lines and the
+store grow by the same rules in the same order, repeated rules of the batch once), vetoed by the
+adapter (some line present), or on a policy type the model does not have. -/
+theorem mirror_addPolicies (e : Enforcer) (hk : e.adapter.kind = .memory) (hp : e.adapter.plan = [])
+    (has : e.autoSave = true) (hm : Mirror e) (sec pt : String) (rules : List Rule) :
+    Mirror (e.addPolicies sec pt rules).1 := by
+  obtain ⟨ha, hs⟩ := addPolicies_fields e sec pt rules has
+  intro sec' pt' hex
+  rw [ha, hs, adapter_addPolicies_mem _ hk hp]
+  rw [hs, adapter_addPolicies_mem _ hk hp] at hex
+  by_cases hany : (rules.map (tag sec pt)).any (fun l => decide (l ∈ e.adapter.lines)) = true
+  · simp only [hany, if_true] at hex ⊢
+    simp only [Option.some.injEq, Bool.false_eq_true, if_false] at hex ⊢
+    exact hm sec' pt' hex
+  · simp only [hany, Bool.false_eq_true, if_false, if_true] at hex ⊢
+    rw [Store.addPolicies_find] at hex
+    show proj sec' pt' _ = _
+    rw [proj_addAll]
+    have hm' : proj sec' pt' e.adapter.lines = e.store.getPolicy sec' pt' := hm sec' pt' hex
+    unfold Store.addPolicies
+    cases hf : e.store.find sec pt with
+    | none =>
+      simp only
+      by_cases hc : sec = sec' ∧ pt = pt'
+      · obtain ⟨h1, h2⟩ := hc; subst h1 h2; rw [hf] at hex; cases hex
+      · simp only [hc, if_false]; exact hm'
+    | some d =>
+      simp only
+      have hfresh : ¬ (rules.any (fun r => decide (r ∈ d.policy)) = true) := by
+        intro h
+        apply hany
+        rw [List.any_eq_true] at h ⊢
+        obtain ⟨r, hr, hin⟩ := h
+        refine ⟨tag sec pt r, List.mem_map.mpr ⟨r, hr, rfl⟩, ?_⟩
+        have hmm : proj sec pt e.adapter.lines = d.policy := by
+          have := hm sec pt (by simp [hf]); unfold proj; simpa [Store.getPolicy, hf] using this
+        have : r ∈ proj sec pt e.adapter.lines := by rw [hmm]; simpa using hin
+        simpa using (mem_proj _ _ _ _).1 this
+      simp only [hfresh, Bool.false_eq_true, if_false]
+      rw [Store.getPolicy_update' e.store sec pt sec' pt' (fun pol => OrdSet.addAll pol rules)]
+      by_cases hc : sec = sec' ∧ pt = pt'
+      · obtain ⟨h1, h2⟩ := hc; subst h1 h2
+        simp only [and_self, if_true, hf, Option.isSome_some, hm']
+      · have : ¬ (sec = sec' ∧ pt = pt' ∧ (e.store.find sec pt).isSome = true) := fun hh => hc ⟨hh.1, hh.2.1⟩
+        simp only [hc, this, if_false]; exact hm'
+
+/-- **`remove_policies` with auto-save keeps the mirror**: performed (every rule present), vetoed by the
+adapter (some line absent), or on a policy type the model does not have. -/
+theorem mirror_removePolicies (e : Enforcer) (hk : e.adapter.kind = .memory) (hp : e.adapter.plan = [])
+    (has : e.autoSave = true) (hm : Mirror e) (sec pt : String) (rules : List Rule) :
+    Mirror (e.removePolicies sec pt rules).1 := by
+  obtain ⟨ha, hs⟩ := removePolicies_fields e sec pt rules has
+  intro sec' pt' hex
+  rw [ha, hs, adapter_removePolicies_mem _ hk hp]
+  rw [hs, adapter_removePolicies_mem _ hk hp] at hex
+  by_cases hany : (rules.map (tag sec pt)).any (fun l => decide (l ∉ e.adapter.lines)) = true
+  · simp only [hany, if_true] at hex ⊢
+    simp only [Option.some.injEq, Bool.false_eq_true, if_false] at hex ⊢
+    exact hm sec' pt' hex
+  · simp only [hany, Bool.false_eq_true, if_false, if_true] at hex ⊢
+    rw [Store.removePolicies_find] at hex
+    show proj sec' pt' _ = _
+    rw [proj_removeAll]
+    have hm' : proj sec' pt' e.adapter.lines = e.store.getPolicy sec' pt' := hm sec' pt' hex
+    unfold Store.removePolicies
+    cases hf : e.store.find sec pt with
+    | none =>
+      simp only
+      by_cases hc : sec = sec' ∧ pt = pt'
+      · obtain ⟨h1, h2⟩ := hc; subst h1 h2; rw [hf] at hex; cases hex
+      · simp only [hc, if_false]; exact hm'
+    | some d =>
+      simp only
+      have hall : ¬ (rules.any (fun r => decide (r ∉ d.policy)) = true) := by
+        intro h
+        apply hany
+        rw [List.any_eq_true] at h ⊢
+        obtain ⟨r, hr, hnin⟩ := h
+        refine ⟨tag sec pt r, List.mem_map.mpr ⟨r, hr, rfl⟩, ?_⟩
+        have hmm : proj sec pt e.adapter.lines = d.policy := by
+          have := hm sec pt (by simp [hf]); unfold proj; simpa [Store.getPolicy, hf] using this
+        have : r ∉ proj sec pt e.adapter.lines := by rw [hmm]; simpa using hnin
+        simpa using fun h' => this ((mem_proj _ _ _ _).2 h')
+      simp only [hall, Bool.false_eq_true, if_false]
+      rw [Store.getPolicy_update' e.store sec pt sec' pt' (fun pol => OrdSet.removeAll pol rules)]
+      by_cases hc : sec = sec' ∧ pt = pt'
+      · obtain ⟨h1, h2⟩ := hc; subst h1 h2
+        simp only [and_self, if_true, hf, Option.isSome_some, hm']
+      · have : ¬ (sec = sec' ∧ pt = pt' ∧ (e.store.find sec pt).isSome = true) := fun hh => hc ⟨hh.1, hh.2.1⟩
+        simp only [hc, this, if_false]; exact hm'
+
+/-- **`remove_filtered_policy` with auto-save keeps the mirror**: the adapter drops the lines of the policy
+type whose fields match the filter, the store drops the rules that match; an empty filter or one that
+selects nothing is vetoed by the adapter and changes neither. -/
+theorem mirror_removeFiltered (e : Enforcer) (hk : e.adapter.kind = .memory) (hp : e.adapter.plan = [])
+    (has : e.autoSave = true) (hm : Mirror e) (sec pt : String) (idx : Nat) (vals : List String) :
+    Mirror (e.removeFiltered sec pt idx vals).1 := by
+  obtain ⟨ha, hs⟩ := removeFiltered_fields e sec pt idx vals has
+  intro sec' pt' hex
+  rw [ha, hs, adapter_removeFiltered_mem _ hk hp]
+  rw [hs, adapter_removeFiltered_mem _ hk hp] at hex
+  by_cases hve : vals.isEmpty = true
+  · simp only [hve, if_true] at hex ⊢
+    simp only [Option.some.injEq, Bool.false_eq_true, if_false] at hex ⊢
+    exact hm sec' pt' hex
+  · simp only [hve, Bool.false_eq_true, if_false] at hex ⊢
+    by_cases hany : e.adapter.lines.any (lineHit sec pt idx vals) = true
+    · simp only [hany, if_true] at hex ⊢
+      rw [Store.removeFiltered_find] at hex
+      show proj sec' pt' _ = _
+      rw [proj_filter]
+      have hm' : proj sec' pt' e.adapter.lines = e.store.getPolicy sec' pt' := hm sec' pt' hex
+      unfold Store.removeFiltered
+      simp only [hve, Bool.false_eq_true, if_false]
+      cases hf : e.store.find sec pt with
+      | none =>
+        simp only
+        by_cases hc : sec = sec' ∧ pt = pt'
+        · obtain ⟨h1, h2⟩ := hc; subst h1 h2; rw [hf] at hex; cases hex
+        · simp only [hc, if_false]; exact hm'
+      | some d =>
+        simp only
+        have hmm : proj sec pt e.adapter.lines = d.policy := by
+          have := hm sec pt (by simp [hf]); unfold proj; simpa [Store.getPolicy, hf] using this
+        have hne : ¬ ((d.policy.filter (filterMatch idx vals)).isEmpty = true) := by
+          rw [any_lineHit_iff, hmm, List.any_eq_true] at hany
+          obtain ⟨r, hr, hfm⟩ := hany
+          intro h
+          have : r ∈ d.policy.filter (filterMatch idx vals) := List.mem_filter.mpr ⟨hr, hfm⟩
+          rw [List.isEmpty_iff.mp h] at this; cases this
+        simp only [hne, Bool.false_eq_true, if_false]
+        rw [Store.getPolicy_update' e.store sec pt sec' pt' (fun pol => pol.filter (fun r => !filterMatch idx vals r))]
+        by_cases hc : sec = sec' ∧ pt = pt'
+        · obtain ⟨h1, h2⟩ := hc; subst h1 h2
+          simp only [and_self, if_true, hf, Option.isSome_some, hm']
+        · have : ¬ (sec = sec' ∧ pt = pt' ∧ (e.store.find sec pt).isSome = true) := fun hh => hc ⟨hh.1, hh.2.1⟩
+          simp only [hc, this, if_false]; exact hm'
+    · have hany' : e.adapter.lines.any (lineHit sec pt idx vals) = false := by simpa using hany
+      simp only [hany', Option.some.injEq, Bool.false_eq_true, if_false] at hex ⊢
+      have hid : e.adapter.lines.filter (fun l => !lineHit sec pt idx vals l) = e.adapter.lines := by
+        rw [List.filter_eq_self]
+        intro l hl
+        have := List.any_eq_false.mp hany' l hl
+        simpa using this
+      rw [hid]
+      exact hm sec' pt' hex
+
+theorem addPolicies_autoSave (e : Enforcer) (sec pt : String) (rules : List Rule) :
+    (e.addPolicies sec pt rules).1.autoSave = e.autoSave := by
+  unfold Enforcer.addPolicies
+  split
+  · split
+    · rfl
+    · rfl
+    · simp only []
+      rw [linkUpdate_autoSave]
+      split <;> simp [emit_autoSave]
+  · simp only []
+    rw [linkUpdate_autoSave]
+    split <;> simp [emit_autoSave]
+
+theorem removePolicies_autoSave (e : Enforcer) (sec pt : String) (rules : List Rule) :
+    (e.removePolicies sec pt rules).1.autoSave = e.autoSave := by
+  unfold Enforcer.removePolicies
+  split
+  · split
+    · rfl
+    · rfl
+    · simp only []
+      rw [linkUpdate_autoSave]
+      split <;> simp [emit_autoSave]
+  · simp only []
+    rw [linkUpdate_autoSave]
+    split <;> simp [emit_autoSave]
+
+theorem removeFiltered_autoSave (e : Enforcer) (sec pt : String) (idx : Nat) (vals : List String) :
+    (e.removeFiltered sec pt idx vals).1.autoSave = e.autoSave := by
+  unfold Enforcer.removeFiltered
+  split
+  · split
+    · rfl
+    · rfl
+    · simp only []
+      rw [linkUpdate_autoSave]
+      split <;> simp [emit_autoSave]
+  · simp only []
+    rw [linkUpdate_autoSave]
+    split <;> simp [emit_autoSave]
+
+theorem memOk_addPolicies (e : Enforcer) (h : MemOk e) (sec pt : String) (rules : List Rule) :
+    MemOk (e.addPolicies sec pt rules).1 := by
+  obtain ⟨hk, hp, has, hm⟩ := h
+  refine ⟨?_, ?_, ?_, mirror_addPolicies e hk hp has hm sec pt rules⟩
+  · rw [(addPolicies_fields e sec pt rules has).1, adapter_addPolicies_mem _ hk hp]; split <;> exact hk
+  · rw [(addPolicies_fields e sec pt rules has).1, adapter_addPolicies_mem _ hk hp]; split <;> exact hp
+  · rw [addPolicies_autoSave]; exact has
+
+theorem memOk_removePolicies (e : Enforcer) (h : MemOk e) (sec pt : String) (rules : List Rule) :
+    MemOk (e.removePolicies sec pt rules).1 := by
+  obtain ⟨hk, hp, has, hm⟩ := h
+  refine ⟨?_, ?_, ?_, mirror_removePolicies e hk hp has hm sec pt rules⟩
+  · rw [(removePolicies_fields e sec pt rules has).1, adapter_removePolicies_mem _ hk hp]; split <;> exact hk
+  · rw [(removePolicies_fields e sec pt rules has).1, adapter_removePolicies_mem _ hk hp]; split <;> exact hp
+  · rw [removePolicies_autoSave]; exact has
+
+theorem memOk_removeFiltered (e : Enforcer) (h : MemOk e) (sec pt : String) (idx : Nat) (vals : List String) :
+    MemOk (e.removeFiltered sec pt idx vals).1 := by
+  obtain ⟨hk, hp, has, hm⟩ := h
+  refine ⟨?_, ?_, ?_, mirror_removeFiltered e hk hp has hm sec pt idx vals⟩
+  · rw [(removeFiltered_fields e sec pt idx vals has).1, adapter_removeFiltered_mem _ hk hp]; split <;> exact hk
+  · rw [(removeFiltered_fields e sec pt idx vals has).1, adapter_removeFiltered_mem _ hk hp]; split <;> exact hp
+  · rw [removeFiltered_autoSave]; exact has
+
+/-- the five internal management operations every public mutation goes through -/
 inductive SOp where
   | add (sec pt : String) (rule : Rule)
   | remove (sec pt : String) (rule : Rule)
+  | addMany (sec pt : String) (rules : List Rule)
+  | removeMany (sec pt : String) (rules : List Rule)
+  | removeFiltered (sec pt : String) (idx : Nat) (vals : List String)
 
 def SOp.apply (e : Enforcer) : SOp → Enforcer
   | .add sec pt rule => (e.addPolicy sec pt rule).1
   | .remove sec pt rule => (e.removePolicy sec pt rule).1
+  | .addMany sec pt rules => (e.addPolicies sec pt rules).1
+  | .removeMany sec pt rules => (e.removePolicies sec pt rules).1
+  | .removeFiltered sec pt idx vals => (e.removeFiltered sec pt idx vals).1
 
-/-- **after every history of single additions and removals** (accepted, vetoed, on existing or
-unknown policy types, with or without watcher) the adapter still mirrors the store … -/
+/-- **after every history of the five management operations** — single and batch additions and removals and
+filtered removals (accepted, vetoed, on existing or unknown policy types, with or without watcher) the adapter still mirrors the store … -/
 theorem mirror_history (e : Enforcer) (h : MemOk e) (ops : List SOp) : MemOk (ops.foldl SOp.apply e) := by
   induction ops generalizing e with
   | nil => exact h
@@ -377,6 +713,9 @@ theorem mirror_history (e : Enforcer) (h : MemOk e) (ops : List SOp) : MemOk (op
     cases op with
     | add sec pt rule => exact ih _ (memOk_add e h sec pt rule)
     | remove sec pt rule => exact ih _ (memOk_remove e h sec pt rule)
+    | addMany sec pt rules => exact ih _ (memOk_addPolicies e h sec pt rules)
+    | removeMany sec pt rules => exact ih _ (memOk_removePolicies e h sec pt rules)
+    | removeFiltered sec pt idx vals => exact ih _ (memOk_removeFiltered e h sec pt idx vals)
 
 /-- … so a `load_policy` at any point of such a history changes nothing -/
 theorem reload_after_history (e : Enforcer) (h : MemOk e) (ops : List SOp) :
